@@ -3,7 +3,8 @@
 One source for: the independent canonicaliser (canon), the model-value converter (to_val) and the object-graph
 generator.  Each class lists its metamodel attributes in a fixed order with a *kind*:
 
-  str / ostr                mandatory / optional string
+  str / ostr                mandatory / optional constrained string (min length 1)
+  ostr0                     optional plain string (may be empty)
   bool                      mandatory bool
   enum:<E> / oenum:<E>      enum member
   xtype / oxtype            an XSD value type (a datatypes class)
@@ -39,8 +40,8 @@ META = {
                                   ("data_specification_content", "node:DataSpecificationIEC61360")],
     "DataSpecificationIEC61360": [
         ("preferred_name", "lss:PreferredNameTypeIEC61360"), ("data_type", "oenum:DataTypeIEC61360"),
-        ("definition", "olss:DefinitionTypeIEC61360"), ("short_name", "olss:ShortNameTypeIEC61360"), ("unit", "ostr"),
-        ("unit_id", "onode:Reference"), ("source_of_definition", "ostr"), ("symbol", "ostr"), ("value_format", "ostr"),
+        ("definition", "olss:DefinitionTypeIEC61360"), ("short_name", "olss:ShortNameTypeIEC61360"), ("unit", "ostr0"),
+        ("unit_id", "onode:Reference"), ("source_of_definition", "ostr0"), ("symbol", "ostr0"), ("value_format", "ostr0"),
         ("value_list", "oset:node:ValueReferencePair"), ("value", "ostr"), ("level_types", "enumset:IEC61360LevelType")],
     "ValueReferencePair": [("value", "str"), ("value_id", "node:Reference")],
     "Qualifier": [("type", "str"), ("value_type", "xtype"), ("value", "otyped:value_type"), ("value_id", "onode:Reference"),
